@@ -226,9 +226,21 @@ pub fn mix_value(hid: u8, a: [u64; 5]) -> u64 {
     h.finish() & 0x00ff_ffff_ffff_ffff
 }
 
+/// Every harness helper ends by overwriting the caller-saved scratch registers r10 and r11, as any
+/// C function is entitled to: a legal but unusual behaviour at the helper seam (native code that
+/// keeps a value of its own in a caller-saved register across the call loses it, deterministically).
+#[inline(always)]
+fn clobber_scratch() {
+    unsafe {
+        std::arch::asm!("mov r10, 0x5a5a5a5a5a5a5a5a", "mov r11, r10", out("r10") _, out("r11") _, options(nomem, nostack));
+    }
+}
+
 fn mixer(hid: u8, a: [u64; 5]) -> u64 {
     tls(|t| t.helper_log.push((hid, a)));
-    mix_value(hid, a)
+    let v = mix_value(hid, a);
+    clobber_scratch();
+    v
 }
 fn h_mix0(a: u64, b: u64, c: u64, d: u64, e: u64) -> u64 {
     mixer(H_MIX0, [a, b, c, d, e])
@@ -244,6 +256,7 @@ fn h_mix3(a: u64, b: u64, c: u64, d: u64, e: u64) -> u64 {
 }
 fn h_probe_r1(a: u64, tag: u64, _c: u64, _d: u64, _e: u64) -> u64 {
     tls(|t| t.probe_r1 = Some((a, tag)));
+    clobber_scratch();
     0
 }
 fn h_probe_slot(r1: u64, doff: u64, eoff: u64, tag: u64, _e: u64) -> u64 {
@@ -255,11 +268,13 @@ fn h_probe_slot(r1: u64, doff: u64, eoff: u64, tag: u64, _e: u64) -> u64 {
         )
     };
     tls(|t| t.probe_slot = Some((d, e, tag)));
+    clobber_scratch();
     0
 }
 fn h_probe_stack(p: u64, tag: u64, _c: u64, _d: u64, _e: u64) -> u64 {
     let v = unsafe { (p as *const u64).read_unaligned() };
     tls(|t| t.probe_stack = Some((v, tag)));
+    clobber_scratch();
     0
 }
 
